@@ -146,6 +146,14 @@ def ofPoly (n m p : Nat) (dt : Dt) (params : ParamEnv) (fs : List PPoly) (hs : O
     DIO :=
   ⟨n, m, p, dt, params, fun env => polySys n m p fs hs (env ++ params), none, true⟩
 
+/-- `NonlinearIOSystem(updfcn, outfcn, …, params=params)` whose callables read further parameters
+as `params.get(name, default)`: such a name is not in `self.params` (so it is not merged into the
+`params` of an interconnection), it can be overridden by a call or by a dictionary passed down from an
+interconnection, and otherwise has the value written in the callable. -/
+def ofPolyD (n m p : Nat) (dt : Dt) (params defaults : ParamEnv) (fs : List PPoly)
+    (hs : Option (List PPoly)) : DIO :=
+  ⟨n, m, p, dt, params, fun env => polySys n m p fs hs (env ++ params ++ defaults), none, true⟩
+
 /-- a `StateSpace` object (no parameters). -/
 def ofSS (n m p : Nat) (dt : Dt) (G : SS (Fin n) (Fin m) (Fin p) Q) : DIO :=
   ⟨n, m, p, dt, [], fun _ => (IOSys.ofSS G).strict, some G, false⟩
@@ -223,6 +231,20 @@ def feedback (self other : DIO) (sign : Q) : Except Err DIO :=
       (IOSys.feedback G₁ G₂ sign).flat.strict, none, false⟩
   else .error .shape
 
+/-- `self.feedback(other, sign, params=given)`: a dictionary given at construction *is* the
+`params` of the interconnection (`None`: the subsystems' dictionaries merged). -/
+def feedbackP (self other : DIO) (sign : Q) (given : Option ParamEnv) : Except Err DIO :=
+  if h : self.p = other.m ∧ other.p = self.m then do
+    let dt0 ← common self.dt other.dt
+    let dt ← dt2 self.dt other.dt
+    let _ ← common dt0 dt
+    let ps := given.getD (other.params ++ self.params)
+    pure ⟨self.n + other.n, self.m, self.p, dt, ps, fun env =>
+      let G₁ := self.build (env ++ ps)
+      let G₂ := (other.build (env ++ ps)).cast rfl h.1.symm h.2
+      (IOSys.feedback G₁ G₂ sign).flat.strict, none, false⟩
+  else .error .shape
+
 end DIO
 
 /-- operands of the Python operators. -/
@@ -291,6 +313,12 @@ def div : IOperand → IOperand → Except Err DIO
 def feedback : IOperand → IOperand → Q → Except Err DIO
   | .sys A, b, sign => if !A.lin then A.feedback b.toSys sign else .error .notImplemented
   | _, _, _ => .error .notImplemented
+
+/-- `a.feedback(b, sign, params=given)`. -/
+def feedbackP : IOperand → IOperand → Q → Option ParamEnv → Except Err DIO
+  | .sys A, b, sign, given =>
+    if !A.lin then A.feedbackP b.toSys sign given else .error .notImplemented
+  | _, _, _, _ => .error .notImplemented
 
 def neg : IOperand → Except Err DIO
   | .sys A => if !A.lin then .ok A.neg else .error .notImplemented
@@ -452,6 +480,48 @@ def linearizeD (G : DIO) (env : ParamEnv) (t : Q) (X0 U0 : VArg) (eps : Q) :
   let x0 ← vecOfList G.n x0l
   let u0 ← vecOfList G.m u0l
   IOSys.linearize (G.build env) t x0 u0 eps
+
+/-- the first argument of `linearize`: a state vector or an `OperatingPoint` object (its
+`states` and `inputs` attributes). -/
+inductive XArg where
+  | vec (x : VArg)
+  | op (states inputs : VArg)
+
+/-- the point at which `NonlinearIOSystem.linearize(x0, u0=None, …)` linearises (`u0 = .none`: the
+argument is omitted or `None`; the function `linearize(sys, xeq, ueq=None, …)` passes its `ueq` on):
+```
+if isinstance(x0, OperatingPoint):
+    u0 = x0.inputs if u0 is None else u0
+    x0 = x0.states
+elif u0 is None:
+    u0 = 0
+``` -/
+def linPoint : XArg → VArg → VArg × VArg
+  | .op xs us, .none => (xs, us)
+  | .op xs _, u => (xs, u)
+  | .vec x, .none => (x, .scalar 0)
+  | .vec x, u => (x, u)
+
+/-- `sys.linearize(x0[, u0], t, params, eps)` with the argument forms of `linPoint`. -/
+def linearizeP (G : DIO) (env : ParamEnv) (t : Q) (X : XArg) (U : VArg) (eps : Q) :
+    Except Err (SS (Fin G.n) (Fin G.m) (Fin G.p) Q) :=
+  linearizeD G env t (linPoint X U).1 (linPoint X U).2 eps
+
+/-! ### `dynamics`, `output` -/
+
+/-- `sys.dynamics(t, x, u, params)`: `_update_params(params)`, then `_rhs`. -/
+def dynamicsD (G : DIO) (env : ParamEnv) (t : Q) (x u : List Q) : Except Err (List Q) := do
+  let x ← vecOfList G.n x
+  let u ← vecOfList G.m u
+  let v ← (G.build env).f t x u
+  pure (listOf v)
+
+/-- `sys.output(t, x, u, params)`: `_update_params(params)`, then `_out`. -/
+def outputD (G : DIO) (env : ParamEnv) (t : Q) (x u : List Q) : Except Err (List Q) := do
+  let x ← vecOfList G.n x
+  let u ← vecOfList G.m u
+  let v ← (G.build env).h t x u
+  pure (listOf v)
 
 /-! ### `find_operating_point`: the index bookkeeping -/
 
